@@ -16,7 +16,7 @@ SameDoc(a, b) == IF a.j # b.j THEN FALSE
 Why(e) == LET w == SelectSeqNoLine(Wanted(e))  st == Worst(e.expr, <<>>, e.docs, e.b) IN
           IF Len(w) # Len(e.lines) THEN "number of output lines"
           ELSE IF \E k \in 1..Len(w) : w[k].j # "indef" /\ ~SameDoc(w[k], e.lines[k]) THEN "an output line"
-          ELSE IF st # StatusIndef /\ st # e.status THEN "exit status" ELSE "ok"
+          ELSE IF ~StatusOK(st, e.status) THEN "exit status" ELSE "ok"
 Init == i = 1 /\ TLCSet(1, <<>>)
 Next == /\ i <= Len(Trace) /\ i' = i + 1
         /\ LET y == Why(Trace[i]) IN y = "ok" \/ TLCSet(1, Append(TLCGet(1), <<i, y>>))
